@@ -31,6 +31,9 @@ are claimed in MANIFEST.json (C15 at level `other`, the rest at level `proof`).
   whose objective value differs from LPT's.
 * The harness side of the correspondence runs the implementation calls in a pool of forked worker processes
   (`engine.impl_map`); C15's histories run in the main interpreter.
+* The output types of `prtpy/outputtypes.py` are part of the model, not of the harness: every driver request carries
+  `out=<type>` and the model answers with `Prtpy.Out.<type>` of its bins-array (theorems `BinsOps.outputs_from_partition`
+  and friends); the harness only substitutes item names for ids.
 * No source hooks: `MANIFEST.hooks.source_commits` is empty.
 
 *Theorems registered per property* (generated from `lean/theorems.json`; `partial` entries say what is missing):
